@@ -969,6 +969,16 @@ theorem reentrant_pure_is_plain (P : List K → K → OmProg K V) (f : K → OmR
     (n : Nat) (c : Cache K V) (hom : c.onMiss = some f) (op : Op K V) : Cache.mach.rstep P (n + 1) c op = step c op :=
   Cache.rstep_pure P f hP n c hom op
 
+/-- the nesting depth `fuel` only matters for callbacks that look keys up themselves: a callback none of whose
+    calls is an item get / get / setdefault — whatever its other calls answer; e.g. the self-priming loader —
+    never re-enters on_miss, and every depth >= 1 gives the same calls, on all three machines -/
+theorem reentrant_depth_irrelevant_without_lookups (P : List K → K → OmProg K V) (hP : ∀ lg k, (P lg k).NoLookup) (n : Nat) :
+    Cache.mach.rstep P (n + 1) = Cache.mach.rstep P 1 ∧ HCache.mach.rstep P (n + 1) = HCache.mach.rstep P 1 ∧
+    Ref.mach.rstep P (n + 1) = Ref.mach.rstep P 1 := by
+  unfold Mach.rstep
+  exact ⟨by rw [Mach.rget_depth_irrelevant _ P hP], by rw [Mach.rget_depth_irrelevant _ P hP],
+    by rw [Mach.rget_depth_irrelevant _ P hP]⟩
+
 /-- the pointer-level caches (real links, PREV / NEXT, rotating anchor) simulate the ring-level caches under a
     re-entrant on_miss too, with equal results: a program that stores the key itself leaves ONE link for it -/
 theorem reentrant_linked_list_refines_ring (lru : Bool) (max : Nat) (hmax : 1 ≤ max) (om : K → OmRes V) (P : List K → K → OmProg K V) (fuel : Nat)
@@ -1004,6 +1014,12 @@ theorem reentrant_linked_list_wellformed (lru : Bool) (max : Nat) (hmax : 1 ≤ 
 
 /-- the self-priming loader of seeded change C02-8: on_miss(k) stores `k ↦ 9` itself and returns 2k+1 -/
 def selfPriming : List Nat → Nat → OmProg Nat Nat := fun _ k => .ofList [(false, .setitem k 9)] (.ret (2 * k + 1))
+
+/-- it makes no lookups (the hypothesis of `reentrant_depth_irrelevant_without_lookups` is satisfiable) -/
+example : ∀ lg k, (selfPriming lg k).NoLookup := by
+  intro lg k
+  refine .call _ _ rfl (fun o => ?_)
+  cases o <;> exact .done _
 
 /-- LRU, max_size 3: load 1, 2, 3 through the self-priming loader — three entries, one link each, the returned
     values cached; look 1 up, insert 4: 2 (the oldest) is evicted -/
